@@ -740,6 +740,7 @@ func progsGoexit(t *testing.T, prop string) {
 	stages := map[string][]string{
 		"C06": {"Map", "FMap", "Filter", "TakeWhile", "Partition", "ForEach", "Fold", "Emit", "Unfold"},
 		"C09": {"fork.Map", "fork.Filter", "fork.ForEach"},
+		"C07": {"Map", "FMap", "Emit", "Unfold"},
 	}[prop]
 	for _, st := range stages {
 		for _, n := range []int{1, 6} {
